@@ -40,6 +40,9 @@ func init() {
 // keep extension objects out of the ext32 format (and, conservatively, ext16): msgp v1.1.9's Reader.Skip peeks five
 // bytes of the six-byte ext32 header and fails; the finding is exercised separately on the EventTime (see genChunk)
 func capExt(n *Node) {
+	if n.K == KExt && n.W >= 3 && len(n.S)%7 == 3 {
+		return // now and then an ext32 stays wherever it is (records, entries, option values)
+	}
 	if n.K == KExt {
 		switch len(n.S) {
 		case 1, 2, 4, 8, 16:
